@@ -7,7 +7,9 @@ use std::sync::atomic::{AtomicU64, Ordering};
 use std::sync::Mutex;
 use std::time::Instant;
 
-pub const VERIF_DIR: &str = "/verif";
+pub fn verif_dir() -> String {
+    std::env::var("VERIF_DIR").unwrap_or_else(|_| "/verif".to_string())
+}
 
 pub fn repo_dir() -> String {
     std::env::var("VERIF_REPO").unwrap_or_else(|_| "/repo".to_string())
@@ -61,7 +63,7 @@ pub struct Finding {
 ///   open: property=C20 key=<key> :: <what fails>
 ///   fixed: property=C13 <commit> key=<key> :: <what failed>
 pub fn load_known_findings() -> Vec<Finding> {
-    let path = format!("{}/known_findings.txt", VERIF_DIR);
+    let path = format!("{}/known_findings.txt", verif_dir());
     let txt = std::fs::read_to_string(path).unwrap_or_default();
     let mut out = vec![];
     for line in txt.lines() {
@@ -121,7 +123,7 @@ impl Ctx {
             .ok()
             .and_then(|v| v.parse::<u64>().ok())
             .unwrap_or(0);
-        let _ = std::fs::remove_dir_all(format!("{}/replays/{}", VERIF_DIR, id));
+        let _ = std::fs::remove_dir_all(format!("{}/replays/{}", verif_dir(), id));
         Ctx {
             id: id.to_string(),
             tier,
@@ -188,7 +190,7 @@ impl Ctx {
         if e.0 == 1 {
             let known = self.known_open(key).is_some();
             e.2 = known;
-            let dir = format!("{}/replays/{}", VERIF_DIR, self.id);
+            let dir = format!("{}/replays/{}", verif_dir(), self.id);
             let _ = std::fs::create_dir_all(&dir);
             let fname = format!("{}/{:03}-{}.json", dir, n, sanitize(key));
             let doc = json!({"property": self.id, "key": key, "what": what, "tier": self.tier.name(), "replay": replay});
@@ -262,8 +264,8 @@ impl Ctx {
             "known_findings_seen": known,
             "machinery_errors": merrs,
         });
-        let _ = std::fs::create_dir_all(format!("{}/evidence", VERIF_DIR));
-        let path = format!("{}/evidence/{}.json", VERIF_DIR, self.id);
+        let _ = std::fs::create_dir_all(format!("{}/evidence", verif_dir()));
+        let path = format!("{}/evidence/{}.json", verif_dir(), self.id);
         std::fs::write(&path, serde_json::to_string_pretty(&ev).unwrap()).expect("write evidence");
         eprintln!(
             "[{} {}] evaluations={} distinct_nontrivial={} outcomes={} violations(new)={} known={} wall={:.1}s",
